@@ -57,16 +57,16 @@ def registry():
                  step=lambda f, q, g, a, m: f.updateIMU(q, g, a), g_ref=Z(1.0), m_ref=Mned))
     R.append(Rec('Madgwick', 'MARG', 'Madgwick', [dict(gain=0.041), dict(gain=0.5, frequency=50.0)], True,
                  step=lambda f, q, g, a, m: f.updateMARG(q, g, a, m), g_ref=Z(1.0), m_ref=Mned, q0_key=None))
-    R.append(Rec('Mahony', 'IMU', 'Mahony', [dict(), dict(k_P=2.0, k_I=0.1, frequency=50.0)], False,
+    R.append(Rec('Mahony', 'IMU', 'Mahony', [dict(), dict(k_P=2.0, k_I=0.1, frequency=50.0, b0=np.array([0.01, -0.02, 0.005]))], False,
                  step=lambda f, q, g, a, m: f.updateIMU(q, g, a), g_ref=Z(1.0), m_ref=Mned))
-    R.append(Rec('Mahony', 'MARG', 'Mahony', [dict(), dict(k_P=2.0, k_I=0.1, frequency=50.0)], True,
+    R.append(Rec('Mahony', 'MARG', 'Mahony', [dict(), dict(k_P=2.0, k_I=0.1, frequency=50.0, b0=np.array([0.01, -0.02, 0.005]))], True,
                  step=lambda f, q, g, a, m: f.updateMARG(q, g, a, m), g_ref=Z(1.0), m_ref=lambda dip: [0.0, cd(dip), sd(dip)]))
     for frame, gz, mr in (('NED', 1.0, Mned), ('ENU', -1.0, Menu)):
-        R.append(Rec('EKF', 'IMU', 'EKF', [dict(frame=frame), dict(frame=frame, frequency=50.0, noises=[0.1**2, 0.3**2, 0.5**2])], False, frame=frame,
+        R.append(Rec('EKF', 'IMU', 'EKF', [dict(frame=frame), dict(frame=frame, frequency=50.0, noises=[0.1**2, 0.3**2, 0.5**2], P=np.identity(4) * 0.5)], False, frame=frame,
                      step=lambda f, q, g, a, m: f.update(q, g, a), g_ref=Z(gz), m_ref=mr))
         R.append(Rec('EKF', 'MARG', 'EKF', [dict(frame=frame, magnetic_ref=60.0), dict(frame=frame, magnetic_ref=60.0, frequency=50.0, noises=[0.1**2, 0.3**2, 0.5**2])], True,
                      frame=frame, step=lambda f, q, g, a, m: f.update(q, g, a, m), g_ref=Z(gz), m_ref=mr))
-    R.append(Rec('UKF', 'IMU', 'UKF', [dict(), dict(frequency=50.0, alpha=1e-2)], False,
+    R.append(Rec('UKF', 'IMU', 'UKF', [dict(), dict(frequency=50.0, alpha=1e-2, P=np.eye(4) * 0.05)], False,
                  step=lambda f, q, g, a, m: f.update(q, g, a), g_ref=Z(1.0), m_ref=Mned))
     aq_args = lambda g, a, m: dict(gyr=g, acc=a, mag=m) if m is not None else dict(gyr=g, acc=a)
     R.append(Rec('AQUA', 'IMU', 'AQUA', [dict(), dict(adaptive=True, alpha=0.05, frequency=50.0)], False, conj=True, batch_args=aq_args,
